@@ -26,7 +26,8 @@ RULE = ("random system bounds/zone x 1-5 proposals with distinct priorities bias
         "conflict-free and (>=2 proposals with a preference or a bounds-narrowing higher-priority proposal)")
 REQUIRED_BUCKETS = ["conflict-free-set", "zone-present", "no-zone", "narrowed-by-higher-priority",
                     "probe-adopted", "probe-rejected", "probe-in-zone", "null-proposal-added", "two-candidates",
-                    "update-prefers-the-previous-target"]
+                    "update-prefers-the-previous-target", "second-component-set-evaluated-last",
+                    "same-source-id-at-two-priorities"]
 REQUIRED_COUNTERS = ["targets_vs_reference", "adoption_probes", "adjust_to_bounds_probes", "null_proposal_checks",
                      "update_steps_checked"]
 ASSUMPTIONS = ["reference model vf/pm.reference encodes the statement; conflicting sets are left to C03"]
@@ -74,6 +75,15 @@ def check(case: dict[str, Any], rec: Any) -> None:
     rec.bucket("zone-present" if zone else "no-zone")
     m = _feed(props, sb)
     t = _tgt(m, sb)
+    # the same manager object also serves another component set, with another exclusion zone, evaluated last: what
+    # it reports for this set must not depend on that
+    CID2 = frozenset({77})
+    sb2 = pm.mk_sysbounds([sl - 50.0, su + 50.0], [-(abs(el) + 37.0), abs(eu) + 23.0])
+    m.calculate_target_power(CID2, pm.mk_proposal({"src": "other-set", "prio": 1, "pref": 5.0, "lo": None, "hi": None}, cid=CID2),
+                             sb2, True)
+    rec.bucket("second-component-set-evaluated-last")
+    if len({p["src"] for p in props}) < len(props):
+        rec.bucket("same-source-id-at-two-priorities")
     rec.count("targets_vs_reference")
     if len(ref["candidates"]) > 1:
         rec.bucket("two-candidates")
